@@ -65,7 +65,7 @@ fn ribbon_ext<const C: usize>(fs: u32, depth: u32, lc: &mut LocalCounts) {
 
 pub fn c17(ctx: &Ctx) -> Report {
     let mut rep = Report::new();
-    rep.rule.push("the subject and its dependencies are compiled with overflow checks and debug assertions; (2) E1 per module over extreme-argument alphabets (range end points, subnormals, +-MAX, NaN / infinities through the clamping conversions) to depth 3 (quick) / 4 (thorough) at sample rates {100, 999, 1000, 44100, 192000}; (3) complete finite spaces: all 256^3 three-byte MIDI sequences from a fresh receiver and four other states, Quantizer::convert over f32 bit patterns (thorough: all 2^32 on four scales), all note and channel bytes; termination: the sample-rate x time plane of C02 with its watchdog; a panic or a watchdog hit is a violation; non-trivial = distinct states reached by the extreme-argument explorations + convert inputs outside [0, 10] V or NaN".into());
+    rep.rule.push("the subject and its dependencies are compiled with overflow checks and debug assertions; (2) E1 per module over extreme-argument alphabets (range end points, subnormals, +-MAX, NaN / infinities through the clamping conversions) to depth 3 (quick) / 4 (thorough) at sample rates {100, 999, 1000, 44100, 192000}; (3) complete finite spaces: all 256^3 three-byte MIDI sequences from a fresh receiver and four other states, Quantizer::convert over f32 bit patterns (thorough: all 2^32 on four scales), all note and channel bytes; termination: the sample-rate x time plane of C02 with its watchdog, plus ten extreme finite times at every rate of the menu (the 20 s clamp at 192 kHz = 3.84e6 ticks per phase is run in both tiers); a panic or a watchdog hit is a violation; non-trivial = distinct states reached by the extreme-argument explorations + convert inputs outside [0, 10] V or NaN".into());
     let thorough = ctx.tier.is_thorough();
     let depth = if thorough { 4 } else { 3 };
     let ext_f: Vec<f32> = vec![f32::NEG_INFINITY, f32::MIN, -1.0, -0.0, 0.0, f32::from_bits(1), f32::MIN_POSITIVE, 1.0e-10, 0.001, 1.0, 20.0, 1.0e10, f32::MAX, f32::INFINITY, f32::NAN];
@@ -362,19 +362,25 @@ pub fn c17(ctx: &Ctx) -> Report {
         let sub = Ctx { id: ctx.id.clone(), tier: Tier::Quick, seed: ctx.seed, root: ctx.root.clone(), threads: ctx.threads, start: ctx.start };
         crate::p_adsr::plane(&sub, &mut scratch, 1 << 25);
         // extreme finite times at every rate of the menu
-        par_ranges(ctx, &mut scratch, rates.len() as u64, rates.len() as u64, |_, lo, hi, lc| {
+        let times = [f32::MIN, -1.0, 0.0, f32::from_bits(1), 1.0e-10, 0.001, 0.0011, 0.0137, 1.0e10, f32::MAX];
+        let pairs = (rates.len() * times.len()) as u64;
+        par_ranges(ctx, &mut scratch, pairs, pairs, |_, lo, hi, lc| {
             for i in lo..hi {
-                for t in [f32::MIN, -1.0, 0.0, f32::from_bits(1), 1.0e-10, 0.001, 0.0011, 0.0137, 1.0e10, f32::MAX] {
-                    if (t.max(0.001).min(20.0) as f64) * (rates[i as usize] as f64) > 2.0e5 && !thorough {
-                        continue;
-                    }
-                    crate::p_adsr::run_config(rates[i as usize], t, lc, 1 << 25);
-                    lc.count("configurations", 1);
+                let (fs, t) = (rates[i as usize / times.len()], times[i as usize % times.len()]);
+                // quick: of the long configurations only the longest one (f32::MAX, clamped to 20 s) is run at every rate
+                if (t.max(0.001).min(20.0) as f64) * (fs as f64) > 2.0e5 && !thorough && t != f32::MAX {
+                    continue;
+                }
+                crate::p_adsr::run_config(fs, t, lc, 1 << 25);
+                lc.count("configurations", 1);
+                if (t.max(0.001).min(20.0) as f64) * (fs as f64) > (1u64 << 20) as f64 {
+                    lc.count("configurations_longer_than_2^20_ticks_per_phase", 1);
                 }
             }
         });
         let n = scratch.counters.get("configurations").copied().unwrap_or(0);
         rep.count("envelopes_run_to_completion", n);
+        rep.count("envelopes_longer_than_2^20_ticks_per_phase", scratch.counters.get("configurations_longer_than_2^20_ticks_per_phase").copied().unwrap_or(0));
         rep.evaluations += n;
         rep.transitions += scratch.counters.get("ticks").copied().unwrap_or(0);
         rep.states += n;
@@ -398,6 +404,7 @@ pub fn c17(ctx: &Ctx) -> Report {
     rep.require_nonzero("midi_three_byte_sequences");
     rep.require_nonzero("convert_bit_patterns");
     rep.require_nonzero("envelopes_run_to_completion");
+    rep.require_nonzero("envelopes_longer_than_2^20_ticks_per_phase");
     rep.sample(json!({"adsr": ["attack:NaN", "gate_on", "tick"], "lfo": ["phase:-3.4028235e38", "tick"], "glide": ["set_time:1e-45", "process:1.0"], "quantizer": ["convert:NaN"], "midi": ["byte:255", "byte:247", "byte:144"]}));
     rep.assumptions.push("a hang inside a single call cannot occur (no unbounded loop in the crate); 'fails to return' is therefore checked as an envelope that never reaches sustain / rest under a watchdog".into());
     rep
